@@ -4,6 +4,7 @@
                                   filter_bilateral, filter_disparity
     pandora/filter/median.py      MedianFilter.median_filter, filter_disparity
     pandora/filter/median_for_intervals.py  MedianForIntervalsFilter.filter_disparity
+    pandora/common.py             sliding_window   (tuples are lists of integers; strides in ELEMENTS, see Lib/NpArr.v)
 
 Python `ast` only (pandora is not imported), fail closed.  The functions are vectorised numpy code; each statement is
 mapped, one construct at a time, to a `let` over the numpy combinators of coq/Lib/NpArr.v (which carry ALL the meaning:
@@ -38,8 +39,9 @@ MFI = "pandora/filter/median_for_intervals.py"
 
 SELF_ATTRS = {"_filter_size": ("filter_size", "Z"), "_sigma_space": ("sigma_space", "Q"), "_sigma_color": ("sigma_color", "Q"),
               "_regularization": ("regularization", "BOOL")}
-ANNOT = {"int": "Z", "float": "Q", "np.ndarray": "F", "xr.Dataset": "DS"}
-COQ_TYPE = {"Z": "Z", "Q": "Q", "F": "nd oq", "B": "nd bool", "M": "nd Z", "DS": "dataset", "BOOL": "bool"}
+ANNOT = {"int": "Z", "float": "Q", "np.ndarray": "F", "xr.Dataset": "DS", "Tuple[int, int]": "L"}
+COQ_TYPE = {"Z": "Z", "Q": "Q", "F": "nd oq", "B": "nd bool", "M": "nd Z", "DS": "dataset", "BOOL": "bool", "L": "list Z"}
+COMMON = "pandora/common.py"
 KEYWORDS = {"in", "let", "if", "then", "else", "fun", "match", "end", "with", "as", "at", "return", "forall", "exists",
             "Type", "Prop", "Set", "fix", "cofix", "for", "where", "using"}
 
@@ -106,6 +108,13 @@ class Module:
                     if isinstance(s, ast.FunctionDef) and s.name == name:
                         return s
         fail(self.path, f"method {cls}.{name} not found")
+        return None
+
+    def function(self, name):
+        for n in self.tree.body:
+            if isinstance(n, ast.FunctionDef) and n.name == name:
+                return n
+        fail(self.path, f"function {name} not found at module level")
         return None
 
     def source_info(self, cls, fdef):
@@ -206,6 +215,15 @@ class Tr:
             if ty == "Q":
                 return f"(- {c})%Q", "Q"
             self.err(e, "unary minus on an array")
+        if isinstance(e, ast.Tuple):
+            xs = [self.expr(x) for x in e.elts]
+            if any(t != "Z" for _, t in xs):
+                self.err(e, "tuple of something else than integers")
+            return "[" + "; ".join(c for c, _ in xs) + "]", "L"
+        if isinstance(e, ast.Attribute) and e.attr == "strides":
+            x = self.expr(e.value)
+            if x[1] == "F":
+                return f"(np_strides {x[0]})", "L"
         if isinstance(e, ast.BinOp):
             return self.binop(e)
         if isinstance(e, ast.Compare) and len(e.ops) == 1:
@@ -242,6 +260,8 @@ class Tr:
             if type(e.op) in ops:
                 return f"({self.to_q(l)} {ops[type(e.op)]} {self.to_q(r)})%Q", "Q"
             self.err(e, f"float operator {type(e.op).__name__}")
+        if lt == "L" and rt == "L" and isinstance(e.op, ast.Add):
+            return f"({l[0]} ++ {r[0]})", "L"       # tuple concatenation
         if lt == "F" and rt == "F":
             ops = {ast.Sub: "np_subtract", ast.Mult: "np_multiply", ast.Div: "np_divide"}
             if type(e.op) in ops:
@@ -274,6 +294,8 @@ class Tr:
             if x[1] in ("F", "B", "M"):
                 return f"(np_shape {x[0]} {e.slice.value})", "Z"
         x = self.expr(e.value)
+        if x[1] == "L" and isinstance(e.slice, ast.Constant) and type(e.slice.value) is int and e.slice.value >= 0:
+            return f"(nth {e.slice.value} {x[0]} 0)", "Z"
         if x[1] == "F" and isinstance(e.slice, ast.Tuple):
             items = []
             for it in e.slice.elts:
@@ -350,10 +372,18 @@ class Tr:
             if len(e.args) != 2 or e.keywords or not isinstance(e.args[1], ast.Tuple) or len(e.args[1].elts) != 2:
                 self.err(e, "sliding_window(a, (w0, w1)) expected")
             x = self.expr(e.args[0])
-            w0, w1 = self.expr(e.args[1].elts[0]), self.expr(e.args[1].elts[1])
-            if x[1] != "F" or w0[1] != "Z" or w1[1] != "Z":
+            sh = self.expr(e.args[1])
+            if x[1] != "F" or sh[1] != "L":
                 self.err(e, "sliding_window(float array, (int, int)) expected")
-            return f"(np_sliding_window {x[0]} {w0[0]} {w1[0]})", "F"
+            return f"(g_sliding_window {x[0]} {sh[0]})", "F"
+        if ast.unparse(f) == "np.lib.stride_tricks.as_strided":
+            if len(e.args) != 1 or sorted(k.arg for k in e.keywords) != ["shape", "strides"]:
+                self.err(e, "as_strided(a, shape=..., strides=...) expected")
+            x = self.expr(e.args[0])
+            kw = {k.arg: self.expr(k.value) for k in e.keywords}
+            if x[1] != "F" or kw["shape"][1] != "L" or kw["strides"][1] != "L":
+                self.err(e, "as_strided(float array, shape=tuple, strides=tuple) expected")
+            return f"(np_as_strided {x[0]} {kw['shape'][0]} {kw['strides'][0]})", "F"
         if is_self_call(e, "normalized_gaussian"):
             x, s = self.args_of(e, 2)
             if x[1] == "F" and s[1] == "Q":
@@ -592,11 +622,11 @@ def definition(name, tr, params, rtype, body, comment):
 
 
 def gen_function(mod, cls, fname, coqname, rtype, ds=None, table=None):
-    fdef = mod.method(cls, fname)
+    fdef = mod.method(cls, fname) if cls else mod.function(fname)
     tr = Tr(mod, fdef, ds_param=ds)
     params = signature(tr, fdef, table)
     body = tr.block(list(fdef.body), 1, rtype)
-    return definition(coqname, tr, params, rtype, body, f"{mod.rel} {cls}.{fname}"), mod.source_info(cls, fdef), tr
+    return definition(coqname, tr, params, rtype, body, f"{mod.rel} {cls + '.' if cls else ''}{fname}"), mod.source_info(cls or "function", fdef), tr
 
 
 # ---------------------------------------------------------------- normalized_gaussian: a formula tree
@@ -872,7 +902,9 @@ def gen_mfi(mod):
 
 
 def main():
-    bil, med, mfi = Module(BIL), Module(MED), Module(MFI)
+    bil, med, mfi, com = Module(BIL), Module(MED), Module(MFI), Module(COMMON)
+    if com.imports.get("np") != "numpy":
+        fail(com.path, "np is not numpy")
     for m in (bil, med):
         if m.imports.get("cst") != "pandora.constants" or m.imports.get("np") != "numpy":
             fail(m.path, "np / cst are not numpy / pandora.constants")
@@ -882,6 +914,7 @@ def main():
         parts.append(res[0])
         sources.append(res[1])
 
+    add(gen_function(com, None, "sliding_window", "g_sliding_window", "F"))
     add(gen_normalized_gaussian(bil))
     add(gen_gauss_spatial_kernel(bil))
     add(gen_function(bil, "BilateralFilter", "bilateral_kernel", "g_bilateral_kernel", "F"))
